@@ -7,4 +7,27 @@ THEOREM_FILES = ["VectorModel/Props/C11.lean"]
 NOT_COVERED = ["float64 rounding", "tau-stored 4D vectors scaled by a negative factor (exact result not representable with tau >= 0)"]
 ALWAYS_SEARCH = True
 search = search_with("c11")
-correspondence = sym_correspondence(["add", "subtract", "dot", "cross", "scale", "unit", "neg2D", "neg3D", "neg4D"], "c11")
+_sym = sym_correspondence(["add", "subtract", "dot", "cross", "scale", "unit", "neg2D", "neg3D", "neg4D"], "c11")
+
+NORM_FORMS = ("abs(", "numpy.absolute", "** ", "numpy.square", "numpy.power", "numpy.sqrt", "numpy.cbrt", "v * k", "k * v", "v / k", "-v", "numpy.negative",
+              "numpy.multiply", "numpy.true_divide")
+
+
+def correspondence(ctx):
+    """symbolic object-backend correspondence + abs / ** / numpy.sqrt / cbrt / power / square are functions of the norm and
+    * / unary - are scale, compared value for value with the methods on the object, NumPy and Awkward backends"""
+    from harness import backends, c05
+    from harness import common as C
+    out = _sym(ctx)
+    bad, st = backends.operator_value_lattice(ctx)
+    out["stats"].update(st)
+    out["stats"]["traces_validated_against_impl"] = out["stats"].get("traces_validated_against_impl", 0) + st["operator_elements"]
+    seen = set()
+    for a, b, k in bad:
+        if k in seen or not any(f in k for f in NORM_FORMS):
+            continue
+        seen.add(k)
+        out["disagreements"].append(f"{a} :: {b}"[:300])
+        out["failing_inputs"].append({"key": k, "what": f"{a}: {b}"[:400], "code": c05.operator_replay(ctx.seed, ctx.tier, k)})
+    out["ok"] = out["ok"] and not seen
+    return out
